@@ -16,7 +16,7 @@ import re
 
 from whoosim import engine, seams
 from whoosim import model as M
-from whoosim.hist import HistActor
+from whoosim.hist import HistActor, HistStop
 from whoosim.kernel import Kernel, SimAbort, SimKilled, HarnessError
 from whoosim.props import _hist
 from whoosim.session import (Session, Violation, cfg_from_record, compare_reader,
@@ -33,7 +33,8 @@ RULE = ("per-run seed -> knobs + a history of 1-4 writer transactions (adds, gro
         "returned, x surviving prefixes of unflushed user-space buffers {none, all, one PRNG prefix per open file}. "
         "evaluations = crash states recovered (reopen + full dump + new writer + commit + orphan scan); a crash state is "
         "non-trivial when it lies strictly inside a transaction, distinct = distinct SHA-256 of (directory tree bytes, "
-        "acceptable generations). Each run recovers a bounded sample of its captured states (quick <= 40, thorough <= 600, "
+        "acceptable generations). 25% of the runs kill the process for real; 15% inject one EIO/ENOSPC (short write) / failing rename / "
+        "failing unlink inside commit() and take the crash states of the error path, including the instant after commit() raised. Each run recovers a bounded sample of its captured states (quick <= 40, thorough <= 600, "
         "weighted 3:1 towards commit()/cancel()); runs with fewer captured states are recovered exhaustively.")
 ASSUMPTIONS = ["crash model = kill -9 of the writing process: kernel-visible state survives in full, user-space buffers survive as a prefix no shorter than the last explicit flush; power-loss (no fsync) reordering is outside the property's crash model and not injected",
                "recovery runs in a fresh simulated process that shares nothing with the dead one but the file system",
@@ -54,8 +55,14 @@ def generate(seed, tier):
                     "p_restart": 0.25, "schema_changes": r.random() < 0.25,
                     "p_delete": r.choice((0.15, 0.3))},
         cfg_kwargs={"force": {"long_text_p": 0.0}})
-    mode = "kill" if r.random() < 0.25 else "enumerate"
+    x = r.random()
+    # "ioerror": the disk fails once inside commit() (EIO, or ENOSPC with a short write) and the
+    # process dies somewhere on the error path or right after commit() raised
+    mode = "kill" if x < 0.25 else ("ioerror" if x < 0.4 else "enumerate")
     rec["crash"] = {"mode": mode, "max_states": TIERS[tier]["max_states"],
+                    "iofault": {"skip": r.randint(0, 60), "errno": r.choice(("EIO", "ENOSPC")),
+                                "kinds": r.choice((["write"], ["write", "creat"], ["write", "creat", "rename"], ["rename"], ["unlink"])),
+                                "short": r.random() < 0.5, "tx": r.randint(1, 4)},
                     "kill_at": r.random(), "tear": r.choice(("none", "all", "mixed")),
                     "recover_merge": r.choice(("none", "default", "optimize"))}
     return rec
@@ -237,6 +244,39 @@ def execute_enum(record, trace=False):
             docs, names, _ = actor.mw.preview(clear=(m == "clear"))
             ctx["phase"] = "commit"
             ctx["acc"] = [_acc(s, s.model.generation), Acceptable(s.model.generation + 1, docs, names)]
+            iof = crash.get("iofault")
+            if crash["mode"] == "ioerror" and iof and not ctx.get("armed") and ctx["tx"] >= min(iof["tx"], ctx.get("ntx", 1)):
+                ctx["armed"] = True
+                import errno as _e
+                st = {"skip": iof["skip"]}
+                task = s.k.current
+
+                def plan(kind, name):
+                    if kind not in iof["kinds"] or s.k.current is not task or "WRITELOCK" in name:
+                        return None
+                    if st["skip"] > 0:
+                        st["skip"] -= 1
+                        return None
+                    s.os.fail_plan = None
+                    ctx["fired"] = "%s on %s %s" % (iof["errno"], kind, name.rsplit("/", 1)[-1][:40])
+                    stats["iofault_fired_" + kind] = stats.get("iofault_fired_" + kind, 0) + 1
+                    e = OSError(getattr(_e, iof["errno"]), "injected %s" % iof["errno"], name)
+                    e.injected = True
+                    if kind == "write" and iof.get("short"):
+                        e.short = frng.randint(1, 64)
+                    ctx["phase"] = "commit_error_path"
+                    return e
+                s.os.fail_plan = plan
+
+        def on_commit_error(actor, exc):
+            if not ctx.get("fired"):
+                return False
+            # commit() raised after the injected fault: the process dies here at the latest
+            s.os.fail_plan = None
+            ctx["phase"] = "commit_failed"
+            stats["commit_failed_by_iofault"] = stats.get("commit_failed_by_iofault", 0) + 1
+            capture("commit() raised %s after %s" % (type(exc).__name__, ctx["fired"]))
+            return True
 
         def after_commit(actor, probe_only=False):
             if probe_only:
@@ -257,9 +297,13 @@ def execute_enum(record, trace=False):
         s.k.event_hooks.append(hook)
         actor = HistActor(s, after_commit=after_commit, after_abort=after_abort, on_op=on_op,
                           before_commit=before_commit, before_abort=before_abort)
+        actor.on_commit_error = on_commit_error
+        ctx["ntx"] = sum(1 for op in record["ops"] if op[0] == "commit")
         try:
             actor.ensure_index()  # index creation is not a writer transaction
             actor.run(record["ops"])
+        except HistStop:
+            pass
         except Violation as v:
             return engine.result_violation("fault_free_run_failed", v.detail, sig="fault_free_run_failed:" + v.sig,
                                            digest=s.k.event_digest())
@@ -277,7 +321,8 @@ def execute_enum(record, trace=False):
     mx = crash.get("max_states", 40)
     if total > mx:
         srng = random.Random("%s/sample" % record["seed"])
-        weights = [3.0 if c[7] in ("commit", "cancel") else 1.0 for c in captured]
+        weights = [(200.0 if c[7] == "commit_failed" else 30.0 if c[7] == "commit_error_path" else 3.0 if c[7] in ("commit", "cancel") else 1.0)
+                   for c in captured]
         chosen = set()
         idx = list(range(total))
         while len(chosen) < mx:
@@ -379,6 +424,39 @@ def execute_kill(record, trace=False):
             docs, names, _ = actor.mw.preview(clear=(m == "clear"))
             ctx["phase"] = "commit"
             ctx["acc"] = [_acc(s, s.model.generation), Acceptable(s.model.generation + 1, docs, names)]
+            iof = crash.get("iofault")
+            if crash["mode"] == "ioerror" and iof and not ctx.get("armed") and ctx["tx"] >= min(iof["tx"], ctx.get("ntx", 1)):
+                ctx["armed"] = True
+                import errno as _e
+                st = {"skip": iof["skip"]}
+                task = s.k.current
+
+                def plan(kind, name):
+                    if kind not in iof["kinds"] or s.k.current is not task or "WRITELOCK" in name:
+                        return None
+                    if st["skip"] > 0:
+                        st["skip"] -= 1
+                        return None
+                    s.os.fail_plan = None
+                    ctx["fired"] = "%s on %s %s" % (iof["errno"], kind, name.rsplit("/", 1)[-1][:40])
+                    stats["iofault_fired_" + kind] = stats.get("iofault_fired_" + kind, 0) + 1
+                    e = OSError(getattr(_e, iof["errno"]), "injected %s" % iof["errno"], name)
+                    e.injected = True
+                    if kind == "write" and iof.get("short"):
+                        e.short = frng.randint(1, 64)
+                    ctx["phase"] = "commit_error_path"
+                    return e
+                s.os.fail_plan = plan
+
+        def on_commit_error(actor, exc):
+            if not ctx.get("fired"):
+                return False
+            # commit() raised after the injected fault: the process dies here at the latest
+            s.os.fail_plan = None
+            ctx["phase"] = "commit_failed"
+            stats["commit_failed_by_iofault"] = stats.get("commit_failed_by_iofault", 0) + 1
+            capture("commit() raised %s after %s" % (type(exc).__name__, ctx["fired"]))
+            return True
 
         def after_commit(actor, probe_only=False):
             ctx["phase"] = None
